@@ -1,0 +1,14 @@
+//go:build verif
+
+package luamanager
+
+import (
+	lua "github.com/yuin/gopher-lua"
+)
+
+// VerifDecodeValue exposes the unexported decodeValue (lua.go), the conversion
+// RunLuaScript applies to the object handed to a script, to the verification
+// harness.  Add-only; compiled only with -tags verif.
+func VerifDecodeValue(L *lua.LState, value interface{}) lua.LValue {
+	return decodeValue(L, value)
+}
